@@ -182,7 +182,13 @@ let judge_apply f =
      judged; the model's printer is quadratic in the nesting depth (seconds per such case) *)
   let huge = String.length doc > 15000 && get f "stream" = "apply-deep" in
   (match mops with
-   | Some _ when huge -> note := "deep document: C04 only"
+   | Some _ when huge ->
+     note := "deep document: C04 only";
+     (* ... and one thing more: a successful call must return a document (not zero bytes) *)
+     if status = "ok" && out = "" && doc <> "" then begin
+       add "C04" (F "success with an empty result (neither a value nor an error)");
+       add "C15" (F "success with an empty result")
+     end
    | Some ops when dec && status <> "panic" && status <> "timeout" ->
      let r = api_apply o (bytes_of_string indent) ops (bytes_of_string doc) in
      let impl_ok = status = "ok" in
